@@ -67,10 +67,11 @@ CHECKS = {
             "Machine-checked: columns and [min_rows,max_rows] are truthful for every well-formed tree over truthful "
             "leaves (all operations incl. join/chain), hence join-identity/trivial flags and the short-cuts keyed on "
             "them. " + CORR, "", "DESIGN.md 5/C06"),
-    "C07": (PR, "Lean 4 theorems over the monadic model of Processor._process_recursive: multi_engine_process_then_execute_yields_direct_rows (operations in iteration engines, fed by transfers between iteration engines AND by transfers out of a SQL engine whose hook conforms, compiles and runs the source; chains, materializations), idempotence on processed trees + correspondence + oracle on every generated multi-engine program",
+    "C07": (PR, "Lean 4 theorems over the monadic model of Processor._process_recursive: multi_engine_process_then_execute_yields_direct_rows (operations in iteration engines, fed by transfers between iteration engines AND by transfers out of a SQL engine whose hook conforms, compiles and runs the source; chains, materializations - also directly after a transfer), idempotence on processed trees + correspondence + oracle on every generated multi-engine program",
             "Machine-checked (Props/C07.lean; the model of Processor.process with the two hooks instantiated the way the "
             "harness's real Processor instantiates them): for every tree of leaves, unary operations, chains, "
-            "materializations of single-engine subtrees, transfers BETWEEN iteration engines and transfers OUT OF A SQL "
+            "materializations of single-engine subtrees AND MATERIALIZATIONS DIRECTLY AFTER A TRANSFER (the payload of the new "
+            "Transfer is handed to the new Materialization and to the input's one, no hook runs twice), transfers BETWEEN iteration engines and transfers OUT OF A SQL "
             "ENGINE whose source is a raw SQL tree over tables (unary operations, joins, chains), statically trivial "
             "transfers and materializations included, nested to any depth: whenever process succeeds the returned tree has "
             "the engine and columns of the input and executing it in its final engine yields exactly the rows - values, "
@@ -89,7 +90,7 @@ CHECKS = {
             "reprocessing_calls_no_hook, fully_processed_tree_is_returned_unchanged); a statically trivial Transfer gets the "
             "engine's trivial payload on a new node, the hook log unchanged (trivial_transfer_calls_no_hook). Proof "
             "(partial): operations or materializations INSIDE a SQL engine downstream of a transfer (transfers INTO a SQL "
-            "engine), joins across engines, Select markers in the input and transfers below materializations are validated "
+            "engine), joins across engines, Select markers in the input and transfers deeper below a materialization are validated "
             "by the correspondence and the oracle on every generated program, not proved; for SQL sources the theorem "
             "assumes faithful table payloads and the decidable check Rel.structReady on the conformed source (as C02); the "
             "multi-engine theorem is a partial-correctness statement (it assumes process returned). " + CORR, "",
